@@ -569,7 +569,53 @@ def m5_rollback_order(S):
                 S.prove(ctx, ob, f"{tag}_only_the_expected_undo_calls", [], bool(set(log) <= set(want)), extra={"note": str(set(log) - set(want))})
 
 
-OBLIGATIONS = [m1_attach_detach_block_rows, m2_attach_block_cell, m3_detach_block_cell, m4_cell_columns, m5_rollback_order]
+def m6_current_epoch_record_follows_the_new_chain(S):
+    """`verify_block` on a tip switch (the execution of C01.m1, judged for the epoch clause): the stored current-epoch record is rewritten with the epoch of the NEW tip whenever that
+    epoch starts with this block or blocks were detached (after a reorganisation inside one epoch number the old and the new branch have different epoch records), and only on
+    a switch; the per-block epoch index is written for every admitted block and the epoch record itself exactly for an epoch head"""
+    from obligations import c01
+
+    def hook(L):
+        ctx, log, when, res, pre, T_ = L["ctx"], L["log"], L["when"], L["res"], L["pre"], T
+        ob = "C02.m6"
+        new_epoch, detached = ctx.bool("new_epoch").t, ctx.bool("has_detached").t
+        sw = T_.and_(when("find_fork"), res["rollback"].t, res["reconcile"].t)
+        S.prove(ctx, ob, "current_epoch_record_rewritten_iff_a_switch_starts_an_epoch_or_detached_blocks", pre + [when("insert_tip"), res["insert_tip"].t],
+                T_.iff(when("insert_cur_epoch"), T_.or_(new_epoch, detached)))
+        S.prove(ctx, ob, "current_epoch_record_is_touched_only_on_a_tip_switch", pre, T_.implies(when("insert_cur_epoch"), T_.and_(sw, when("insert_tip"))))
+        S.prove(ctx, ob, "epoch_record_written_iff_the_block_starts_an_epoch", pre + [L["admitted"], res["insert_epoch_index"].t], T_.iff(when("insert_epoch_ext"), new_epoch))
+        S.prove(ctx, ob, "block_epoch_index_written_for_every_admitted_block", pre + [L["admitted"]], when("insert_epoch_index"))
+        seen = False
+        for k, (t, pc, args, names) in enumerate(log):
+            if t == "insert_cur_epoch":
+                seen = True
+                S.prove(ctx, ob, f"call{k}_current_epoch_is_the_epoch_of_the_new_tip", pc, bool(len(names) > 1 and "next_epoch" in names[1]), extra={"note": str(names)})
+            if t == "insert_epoch_index":
+                S.prove(ctx, ob, f"call{k}_epoch_index_is_keyed_by_this_block", pc, bool(len(names) > 1 and names[1] in ("hash_of.block_header", "block_hash")), extra={"note": str(names)})
+        S.prove(ctx, ob, "current_epoch_write_is_reached", [], bool(seen))
+        S.witness(ctx, ob, "reach_rewrite_after_detach_inside_an_epoch", pre + [T_.not_(new_epoch), detached], when("insert_cur_epoch"))
+    # same program as C01.m1 (verify_block with the store transaction as environment): its own session over C01's crates, results merged into this run
+    S2 = Session(list(c01.CRATES), timeout_s=S.timeout_s)
+    S2.tier, S2.native_driver = S.tier, S.native_driver
+    S_ = S
+
+    def run():
+        nonlocal S
+        S = S2
+        try:
+            c01.m1_tip_switch(S2, ob="C02.m6", hook=hook)
+        finally:
+            S = S_
+    run()
+    S.results += S2.results
+    S.encoded |= S2.encoded
+    S.env_syms |= S2.env_syms
+    S.aux_queries += S2.aux_queries
+    S.aux_time += S2.aux_time
+    S._natives.update(S2._natives)
+
+
+OBLIGATIONS = [m1_attach_detach_block_rows, m2_attach_block_cell, m3_detach_block_cell, m4_cell_columns, m5_rollback_order, m6_current_epoch_record_follows_the_new_chain]
 
 ENGINE = "M"
 LEVEL = "other"
